@@ -16,9 +16,12 @@ import (
 // then see exactly what the cache holds (present-but-empty outputs, skipped outputs).
 func genChainWorld(r *common.Rng) *World {
 	w := &World{}
-	m0 := ModSpec{Name: "m0", Kind: "map", FailAt: -1, Every: uint64(r.Range(2, 3)), SkipEmpty: r.Chance(1, 3), Init: uint64(r.Range(0, 8))}
+	m0 := ModSpec{Name: "m0", Kind: "map", FailAt: -1, Every: uint64(r.Range(2, 3)), SkipEmpty: r.Bool(), Init: uint64(r.Range(0, 8))}
 	m0.Rem = uint64(r.Intn(int(m0.Every)))
-	m0.Inputs = []InputSpec{{Kind: []string{"source", "source", "clock"}[r.Intn(3)]}}
+	m0.Inputs = []InputSpec{{Kind: []string{"source", "source", "clock", "params"}[r.Intn(4)]}}
+	if m0.Inputs[0].Kind == "params" {
+		m0.Inputs[0].Ref = "p1"
+	}
 	w.Mods = append(w.Mods, m0)
 	prevMap, prevStore := "m0", ""
 	maxInit := m0.Init
@@ -32,6 +35,9 @@ func genChainWorld(r *common.Rng) *World {
 			m := ModSpec{Name: fmt.Sprintf("m%d", i), Kind: "map", FailAt: -1, Every: uint64(r.Range(1, 2)), SkipEmpty: r.Chance(1, 2), Init: init}
 			m.Rem = uint64(r.Intn(int(m.Every)))
 			m.Inputs = []InputSpec{{Kind: "map", Ref: prevMap}}
+			if r.Chance(2, 5) { // a dependent that also wants the clock: needs the block source although it reads no block
+				m.Inputs = append([]InputSpec{{Kind: "clock"}}, m.Inputs...)
+			}
 			if prevStore != "" {
 				m.Inputs = append(m.Inputs, InputSpec{Kind: []string{"get", "deltas"}[r.Intn(2)], Ref: prevStore})
 				if r.Bool() {
@@ -53,9 +59,35 @@ func genChainWorld(r *common.Rng) *World {
 	return w
 }
 
+// genLateStoreWorld: an anchored map reads a store that starts later than the map itself, so that a request can begin
+// (and hand off to the linear part) below the store's initial block: the store is not part of the back-processing,
+// yet the linear part needs it.
+func genLateStoreWorld(r *common.Rng) *World {
+	w := &World{}
+	m0 := ModSpec{Name: "m0", Kind: "map", FailAt: -1, Every: uint64(r.Range(1, 2)), SkipEmpty: r.Bool(), Init: uint64(r.Range(0, 5))}
+	m0.Rem = uint64(r.Intn(int(m0.Every)))
+	m0.Inputs = []InputSpec{{Kind: "source"}}
+	s1 := ModSpec{Name: "s1", Kind: "store", FailAt: -1, Every: 1, Init: m0.Init + uint64(r.Range(6, 24)), Policy: "add", VT: "int64"}
+	s1.Inputs = []InputSpec{{Kind: []string{"source", "clock", "map"}[r.Intn(3)]}}
+	if s1.Inputs[0].Kind == "map" {
+		s1.Inputs[0].Ref = "m0"
+	}
+	s1.Ops = []OpTmpl{{Kind: "sum", Ord: 1, KeyBase: "cnt", ValMul: 0, ValAdd: 1, Mod: 1}, {Kind: "sum", Ord: 0, KeyBase: "k", KeyMod: 2, ValMul: 1, ValAdd: 2, Mod: 1}}
+	m2 := ModSpec{Name: "m2", Kind: "map", FailAt: -1, Every: 1, Init: m0.Init + uint64(r.Range(0, 4))}
+	m2.Inputs = []InputSpec{{Kind: []string{"source", "clock"}[r.Intn(2)]}, {Kind: []string{"get", "deltas"}[r.Intn(2)], Ref: "s1"}}
+	if r.Bool() {
+		m2.Inputs = append(m2.Inputs, InputSpec{Kind: "map", Ref: "m0"})
+	}
+	w.Mods = []ModSpec{m0, s1, m2}
+	return w
+}
+
 func GenWorld(r *common.Rng) *World {
-	if r.Chance(1, 5) {
+	switch r.Intn(10) {
+	case 0, 1:
 		return genChainWorld(r)
+	case 2:
+		return genLateStoreWorld(r)
 	}
 	w := &World{}
 	var maps, stores, indexes []int
